@@ -73,6 +73,8 @@ def gen_case(rng, tier, n_params=None, chain=False, inexact=False):
         cand = [f"p/{o['name']}/{k}" for o in mdl["ops"].values() for k, d in o["vars"].items() if d["decl"] == "const"]
         case["update_var"] = {pth: str(F(rng.randint(-6, 6), rng.choice([1, 2, 4]))) for pth in rng.sample(cand, rng.randint(1, min(3, len(cand))))}
         mdl["post_values"] = dict(case["update_var"])      # the exact oracle applies them too
+    if n >= 3 and rng.random() < 0.15 and not chain:
+        case["auto_parnames"] = {"3": "gain"}
     if rng.random() < 0.4:
         # another export in the same process first: the same equations with the parameters declared in reverse order (another slot layout)
         case["pre_export_reversed"] = True
@@ -123,6 +125,8 @@ def impl_export(case):
                     kw["auto_jac"] = True
                 if case["scenario"] != "ivp":
                     kw["auto_constants"] = (case["scenario"],)
+                if case.get("auto_parnames"):
+                    kw["auto_parnames"] = {int(k_): v_ for k_, v_ in case["auto_parnames"].items()}       # a partial, user-supplied naming
                 func, args, names, smap = c.get_run_func("vfx", **kw)
             except Exception as e:
                 return {"error": type(e).__name__, "msg": str(e)[:300]}
@@ -197,6 +201,15 @@ def deviations(case, res, slots, tables):
     for pth, v in (case.get("update_var") or {}).items():
         val[pth.rsplit("/", 1)[1]] = F(float(F(v)))
     exp_par = {s: nm for s, nm in zip(slots, decl)}
+    if case.get("auto_parnames"):
+        # the user's names replace the derived ones in the c.* file; slots, STPNT, the call and NPAR still cover every model parameter
+        if P["parnames"] != {int(k_): v_ for k_, v_ in case["auto_parnames"].items()}:
+            bad.append(("user-parnames-not-written", {"got": P["parnames"], "expected": case["auto_parnames"]}))
+        if P["NPAR"] != max(slots):
+            bad.append(("NPAR-does-not-cover-the-model-slots", {"NPAR": P["NPAR"], "highest_model_slot": max(slots)}))
+        P = dict(P, parnames=exp_par)          # the remaining comparisons use the derived slot -> name map
+        if P["NPAR"] != max(slots):
+            return bad
     if P["parnames"] != exp_par:
         bad.append(("parnames-not-declaration-order-on-model-slots", {"got": P["parnames"], "expected": exp_par}))
     got_slots = sorted(P["parnames"])
@@ -286,7 +299,9 @@ def check(tier, seed, replay=None):
     else:
         cases = [json.load(open(f))["case"] for f in sorted(glob.glob(os.path.join(C.VERIF, "corpus", PID, "*.json")))]
         fixed = [9, 10, 11, 14, 15, 1]
-        cases += [gen_case(rng, tier, n) for n in fixed] + [gen_case(rng, tier) for _ in range(10 if tier == "quick" else 80)]
+        forced = gen_case(rng, tier, 12)
+        forced["auto_parnames"] = {"3": "gain"}
+        cases += [gen_case(rng, tier, n) for n in fixed] + [forced] + [gen_case(rng, tier) for _ in range(10 if tier == "quick" else 80)]
         cases += [gen_case(rng, tier, rng.choice([3, 8, 10]), chain=True) for _ in range(4 if tier == "quick" else 30)]
         cases += [gen_case(rng, tier, rng.choice([2, 5, 11]), chain=rng.random() < 0.3, inexact=True) for _ in range(4 if tier == "quick" else 30)]
     impl = C.run_forked(impl_export, cases, timeout=600, workers=8)
